@@ -112,3 +112,55 @@ func H_C20_missingInterfaceLists(helper int, c0 int) {
 	vAssert("no-panic-escapes", !escaped)
 	vAssert("missing-interface-reported-and-stopped", rec.errs == 1 && rec.failNow == 1)
 }
+
+// ---- pointer type parameters: T = *scriptU ----
+
+type scriptPHelper struct{}
+
+func (scriptPHelper) New(v *scriptU) *scriptU { return &scriptU{mode: v.mode} }
+func (scriptPHelper) AssertEmpty(t TestingT, v *scriptU, failInfo string) {
+	if v.got != "" {
+		t.Errorf("not empty: %s", failInfo)
+	}
+}
+func (scriptPHelper) AssertEqual(t TestingT, expected, actual *scriptU, failInfo string) {
+	if expected.got != actual.got {
+		t.Errorf("not equal: %s", failInfo)
+	}
+}
+
+// the unmarshal helpers with a pointer type parameter: with a TypeHelper its New builds the receiver (the script
+// travels with it); without one the receiver is a fresh zero value behind a new pointer (reflect.New)
+//
+//verif:harness C20 quick helper=0..2 mode=0..3 withHelper=0..1
+func H_C20_pointerType(helper int, mode int, withHelper int) {
+	d := vStr("d", 1)
+	if withHelper == 0 && mode != 0 {
+		return // without a helper the script cannot reach the fresh receiver: only the plain behaviour is meaningful
+	}
+	rec := &recT{}
+	escaped := func() (p bool) {
+		defer func() {
+			if recover() != nil {
+				p = true
+			}
+		}()
+		var h TypeHelper[*scriptU]
+		if withHelper == 1 {
+			h = scriptPHelper{}
+		}
+		switch helper {
+		case 0:
+			UnmarshalText[*scriptU](rec, []CaseText[*scriptU]{{Data: d, Value: &scriptU{mode: mode, got: d}}}, h)
+		case 1:
+			UnmarshalBinary[*scriptU](rec, []CaseBinary[*scriptU]{{Data: []byte(d), Value: &scriptU{mode: mode, got: d}}}, h)
+		default:
+			UnmarshalJSON[*scriptU](rec, []CaseJSON[*scriptU]{{Data: d, Value: &scriptU{mode: mode, got: d}}}, h)
+		}
+		return false
+	}()
+	vAssert("no-panic-escapes", !escaped)
+	vAssert("failure-reported-iff-case-not-satisfied", (rec.errs > 0) == failingUnmarshal(mode))
+	vAssert("no-failnow", rec.failNow == 0)
+	vReach("reached", true)
+}
